@@ -26,7 +26,7 @@ SPECIAL = ["en", "ht", "en-old", "sk", "ja", "zh-CN", "fr", "ar"]
 
 def bounds(tier):
     return {"quick": "dialects %s: all their keywords x role x colon x 1 symbolic following character; modes default/header/history/same for en, ht, fr" % SPECIAL,
-            "thorough": "all 80 dialects x all keywords x role (default mode), 6 dialects through header/history/history2/same modes, foreign keywords of 3 x 3 dialect pairs"}[tier]
+            "thorough": "all 80 dialects x all keywords x role (default mode), 3 dialects through header/history/history2/same modes, foreign keywords of 3 x 3 dialect pairs"}[tier]
 
 
 def solver_part(tier):
@@ -63,8 +63,8 @@ def conditions(tier):
                 cs.append(Cond(M, "keyword_in_role", {"dialect": d, "mode": mode, "other": o, "maxlen": 0}, T=900, reach=["in-role"]))
     else:
         for d in sorted(table):
-            cs.append(Cond(M, "keyword_in_role", {"dialect": d, "maxlen": 2 if d in SPECIAL else 1}, T=3000, reach=["in-role"]))
-        for d in SPECIAL[:6]:
+            cs.append(Cond(M, "keyword_in_role", {"dialect": d, "maxlen": 1}, T=3000, reach=["in-role"]))
+        for d in SPECIAL[:3]:
             o = "en" if d != "en" else "fr"
             for mode in ("header", "history", "history2", "same"):
                 cs.append(Cond(M, "keyword_in_role", {"dialect": d, "mode": mode, "other": o, "maxlen": 1}, T=3000, reach=["in-role"]))
